@@ -37,6 +37,7 @@ CAP = 65536 // LINE          # pipe capacity in model units
 BASE = 1 << 24
 INLINE_FORMS = ("func", "brace", "subsh", "loop")
 KF_INLINE = "KF-C11-inline-stage"
+HANG_BOUND = 10     # seconds granted to a pipeline the model predicts to deadlock (bash needs < 0.1 s for these)
 
 
 def wd():
@@ -198,7 +199,7 @@ def run_case(ctx, k, stages, d, want_hang, env=None):
     big = max([st[2] for st in stages if st[0] == "src"] + [0])
     to_ok = 90 + big // 200
     code = run_shell(ctx.vbrush, ["--norc", "--noprofile", "--no-config"], script_of(stages, d, st_b), d, "b%d" % k,
-                     12 if want_hang else to_ok, env)
+                     HANG_BOUND if want_hang else to_ok, env)
     bash = run_shell("/usr/bin/bash", ["--norc", "--noprofile"], script_of(stages, d, st_h), d, "h%d" % k, to_ok)
     for r, f in ((code, st_b), (bash, st_h)):
         try:
@@ -316,10 +317,27 @@ def eval_sched(ctx, cases, env=None, tag=""):
     else:
         model, mruns = [None] * len(cases), [None] * len(cases)
         want_hang = [known_inline(st) for st in cases]
-    with ThreadPoolExecutor(max_workers=8) as ex:
-        results = list(ex.map(lambda a: run_case(ctx, a[0], a[1], d, want_hang[a[0]], env), list(enumerate(cases))))
+    # cases expected to hang only sleep until their (short) bound: run them wide, the others 8 at a time
+    results = [None] * len(cases)
+    hk = [k for k in range(len(cases)) if want_hang[k]]
+    ok_ = [k for k in range(len(cases)) if not want_hang[k]]
+    with ThreadPoolExecutor(max_workers=8) as ex, ThreadPoolExecutor(max_workers=16) as exh:
+        fh = [(k, exh.submit(run_case, ctx, k, cases[k], d, True, env)) for k in hk]
+        fo = [(k, ex.submit(run_case, ctx, k, cases[k], d, False, env)) for k in ok_]
+        for k, f in fh + fo:
+            results[k] = f.result()
+    # false-alarm discipline: a deadlock of this design is reproducible, a stall of the (shared, loaded) machine is
+    # not. A run outside the known class that did not finish is repeated alone, twice; it counts as a hang only
+    # if it fails to finish again. Stalls that do not reproduce are counted and reported in the evidence.
+    transient = 0
+    for k in range(len(cases)):
+        if results[k][0]["hung"] and not known_inline(cases[k]):
+            again = [run_case(ctx, k, cases[k], d, False, env) for _ in range(2)]
+            if all(not a[0]["hung"] for a in again):
+                transient += 1
+                results[k] = again[-1]
     mism, specv, stale = [], [], 0
-    dist = {"hang_expected": 0, "hang_observed": 0, "bytes_moved": 0, "by_form": {}, "by_beh": {}, "n_stages": {}}
+    dist = {"transient_stalls_not_reproduced": transient, "hang_expected": 0, "hang_observed": 0, "bytes_moved": 0, "by_form": {}, "by_beh": {}, "n_stages": {}}
     bash_dis = 0
     for k, (st, mr, (code, bash)) in enumerate(zip(cases, mruns, results)):
         for s in st:
@@ -546,6 +564,11 @@ def eval_scenarios(ctx):
     for name, script, known in SCENARIOS:
         b = run_shell("/usr/bin/bash", ["--norc", "--noprofile"], script, d, "sb", 60)
         c = run_shell(ctx.vbrush, ["--norc", "--noprofile", "--no-config"], script, d, "sc", 15 if known else 90)
+        if c["hung"] and not known:     # see eval_sched: only a reproducible non-completion counts
+            again = [run_shell(ctx.vbrush, ["--norc", "--noprofile", "--no-config"], script, d, "sc", 120) for _ in range(2)]
+            if all(not a["hung"] for a in again):
+                c = again[-1]
+                ctx.notes.append("scenario %s stalled once and completed in two repetitions" % name)
         same = (not c["hung"]) and c["sha"] == b["sha"]
         res.append({"name": name, "same_as_bash": same, "hung": c["hung"]})
         if not same:
@@ -574,12 +597,32 @@ def run(ctx):
         shutil.rmtree(wd(), ignore_errors=True)
 
 
+PAUSES = ["spawn0=60", "spawn1=60,spawn2=30", "wait=80,spawn0=20", "cmdsub=60,spawn0=30,spawn1=30,spawn2=30"]
+
+
 def run_(ctx):
+    t0 = time.time()
     sched_cases = gen_sched(ctx)
     ev = eval_sched(ctx, sched_cases)
+    t1 = time.time()
+    # the same pipelines with the spawn loop / waiter / substitution reader delayed at the hook points
+    # (no effect unless /repo carries the verif-hooks pause points): stage-start orders are forced
+    pv_mism, pv_specv, pv_n = [], [], 0
+    live = [c for c, r in zip(sched_cases, ev["mruns"]) if r and r[0]["verdict"] == "final" and
+            max([s[2] or 0 for s in c if s[0] == "src"] + [0]) <= 2000]
+    for pause in PAUSES:
+        sub = ctx.rng.sample(live, min(len(live), 14 if ctx.quick else 120))
+        evp = eval_sched(ctx, sub, env={"BRUSH_VERIF_PAUSE": pause})
+        pv_mism += evp["mism"]
+        pv_specv += evp["specv"]
+        pv_n += len(sub)
+    t2 = time.time()
     st_cases, st_model, st_mism, st_specv, vs_bash = eval_status(ctx)
+    t3 = time.time()
     raws, sp_model, sp_mism, sp_specv = eval_strip(ctx)
+    t4 = time.time()
     scen, scen_specv = eval_scenarios(ctx)
+    t5 = time.time()
     # extraction cross-check on small cases of every entry
     small = [k for k, st in enumerate(sched_cases) if sum(s[2] or 0 for s in st if s[0] == "src") <= 60]
     xs = 0
@@ -592,14 +635,16 @@ def run_(ctx):
         xs += len(pick)
     xs += crosscheck(ctx, "c11_status", [[str(pf), str(bg)] + [str(c) for c in cs] for pf, bg, cs in st_cases], st_model)
     xs += crosscheck(ctx, "c11_strip", [[enc_raw(r)] for r in raws], sp_model)
-    mism = ev["mism"] + st_mism + sp_mism
-    specv = ev["specv"] + st_specv + sp_specv + scen_specv
+    mism = ev["mism"] + pv_mism + st_mism + sp_mism
+    specv = ev["specv"] + pv_specv + st_specv + sp_specv + scen_specv
+    ctx.notes.append("wall: sched %.0fs, pause variants %.0fs, status %.0fs, strip %.0fs, scenarios %.0fs, vm_compute cross-check %.0fs" % (
+        t1 - t0, t2 - t1, t3 - t2, t4 - t3, t5 - t4, time.time() - t5))
     nontriv = {repr(c) for c in sched_cases if flow(c)[0][2] > 0} | \
               {repr(c) for c in st_cases if len(c[2]) > 1} | {r for r in raws if r.endswith(b"\n")}
     ev["dist"].update({"status_cases": len(st_cases), "strip_cases": len(raws), "scenarios": scen,
-                       "stale_in_known_class": ev["stale"]})
+                       "stale_in_known_class": ev["stale"], "pause_variant_runs": pv_n, "pause_configs": PAUSES})
     return {
-        "evaluations": len(sched_cases) + len(st_cases) + len(raws) + len(SCENARIOS),
+        "evaluations": len(sched_cases) + pv_n + len(st_cases) + len(raws) + len(SCENARIOS),
         "distinct_nontrivial": len(nontriv),
         "rule": "sched: pipelines of 2-4 stages at process level, each stage (behaviour, form) with behaviour in {source n, cat, head k, "
                 "drop d, read-one-line, sink} and form in {external, builtin, function, brace group, subshell, while/for-read loop}; "
